@@ -694,6 +694,10 @@ static int btcp_receive(struct xcm_socket *__restrict s, void *__restrict buf,
 	break;
     }
 
+    /* recv() returning 0 for a zero-sized request is not end-of-stream */
+    if (capacity == 0)
+	return 0;
+
     int rc = recv(bts->fd, buf, capacity, 0);
 
     if (rc < 0) {
